@@ -427,7 +427,8 @@ def atomics_side(facts):
     return out
 
 MECH_ASSUME = ['Rust move/drop/unwind semantics as transcribed in coq/theories/Mech.v (ManuallyDrop, mem::forget, ptr::read = no drop; scope ends = explicit drops); validated on every run by the mech stream',
-               'the model and the implementation are compared on sampled histories (tie 2), the theorems hold for all histories of the model']
+               'the model and the implementation are compared on sampled histories (tie 2), the theorems hold for all histories of the model',
+               'pointer provenance / aliasing rules are not modelled: they are checked by miri on scenario programs (and, in the thorough tier, on the harness streams), which is testing']
 
 def mech_prop(focuses, extra_side=None, orderings=False, count_oracle=True, ctx_extra=None):
     def side(facts):
@@ -930,7 +931,8 @@ def facts_protocol(facts):
     return dict((k, P.get(k)) for k in ['dec_ord', 'acq_kind', 'acq_ord', 'uniq_ord', 'inc_ord', 'strong_ord', 'closed', 'drop_shape', 'unmodelled_sites'])
 
 CONC_ASSUME = MECH_ASSUME + ['the memory model is the promise-free view semantics of release/acquire + relaxed RMWs on one counter (RC11 without load buffering), coq/theories/Conc.v',
-                             'real multi-threaded executions of the crate are not run by the quick check: the tie is the translated orderings and closed world plus the single-threaded atomic footprint of every call']
+                             'real threads of the crate are run serialised, one visible step at a time, against the machine (schedule stream) and as a few miri scenarios; truly parallel executions are not explored: beyond those samples the tie is the translated orderings and counter programs, the closed world of atomic sites and the atomic footprint of every call',
+                             'the happens-before bookkeeping of the schedule harness and miri\'s data-race detector are oracles on sampled executions, not proofs']
 
 def conc_prop(focuses, with_uniq):
     P = mech_prop(focuses, extra_side=(lambda f: protocol_side(f) + ((uniq_side(f) + cow_side(f)) if with_uniq else [])), orderings=True)
